@@ -8,9 +8,9 @@ import (
 
 // checkLogFaithful tests the named hypothesis of the C03 theorems on real git output: every entry of
 // `git log --name-status` relates the trees of commit^ and commit as documented (A: absent -> present, D: present -> absent,
-// M/T: present in both, R s d: s present -> absent, d present), every path whose blob differs is listed, each path is
-// listed at most once per commit.  Returns human-readable violations (expected: none) and whether the guard fresh_dst
-// holds for this log (a rename never lands on a path with a live change chain).
+// M/T: present in both, R s d: s present -> absent, d absent -> present), every path whose blob differs is listed, each path is
+// listed at most once per commit.  Returns human-readable violations (expected: none) and whether no rename of the log lands
+// on a path that already has a change record (stratum only: since fix d9e7954 no theorem needs that guard).
 func checkLogFaithful(dir, logText string) (violations []string, freshDst bool) {
 	tree := func(rev string) map[string]string {
 		out := map[string]string{}
@@ -76,7 +76,7 @@ func checkLogFaithful(dir, logText string) (violations []string, freshDst bool) 
 		case 'M', 'T':
 			ok = src == dst && sb && sa
 		case 'R':
-			ok = src != dst && sb && !sa && da
+			ok = src != dst && sb && !sa && da && !db
 		default:
 			ok = false
 		}
